@@ -6,6 +6,7 @@ package shwap_test
 import (
 	"bytes"
 	"context"
+	"encoding/json"
 	"fmt"
 	"testing"
 
@@ -495,18 +496,33 @@ func TestVerifC01_RowNamespaceData(t *testing.T) {
 				attached = append(attached, sq.Shares[rapid.IntRange(0, sq.ODS*sq.ODS-1).Draw(t, "attach")])
 			}
 			resp = shwap.RowNamespaceData{Shares: attached, Proof: abs.Proof}
-			// through the wire
-			var wb bytes.Buffer
-			if _, err := resp.WriteTo(&wb); err != nil {
-				decoded = false
-				break
+			// through the stream encoding, the JSON form, or as a value
+			switch rapid.SampledFrom([]string{"stream", "json", "direct"}).Draw(t, "wire") {
+			case "stream":
+				var wb bytes.Buffer
+				if _, err := resp.WriteTo(&wb); err != nil {
+					decoded = false
+					break
+				}
+				var dec shwap.RowNamespaceData
+				if _, err := dec.ReadFrom(bytes.NewReader(wb.Bytes())); err != nil {
+					decoded = false
+					break
+				}
+				resp = dec
+			case "json":
+				js, err := json.Marshal(resp)
+				if err != nil {
+					decoded = false
+					break
+				}
+				var dec shwap.RowNamespaceData
+				if err := json.Unmarshal(js, &dec); err != nil {
+					decoded = false
+					break
+				}
+				resp = dec
 			}
-			var dec shwap.RowNamespaceData
-			if _, err := dec.ReadFrom(bytes.NewReader(wb.Bytes())); err != nil {
-				decoded = false
-				break
-			}
-			resp = dec
 		case "bytes":
 			var buf bytes.Buffer
 			_, err := honest.WriteTo(&buf)
